@@ -532,6 +532,11 @@ func (g *G) sliceMods(n *spec.Node) {
 		k := g.R.Range(1, 3)
 		sl := reflect.MakeSlice(n.GoType(), 0, k)
 		for i := 0; i < k; i++ {
+			if g.pct(25) {
+				// a zero-valued item (0, false, "", the zero time) inside a default: in Parse a present value unless it is a blank string
+				sl = reflect.Append(sl, reflect.Zero(n.GoType().Elem()))
+				continue
+			}
 			sl = reflect.Append(sl, reflect.ValueOf(n.Elem.Witness))
 		}
 		n.Mods = append(n.Mods, spec.Mod{Op: spec.MDefault, Val: sl.Interface()})
